@@ -128,6 +128,57 @@ Qed.
 Lemma all_len_new ws : all_len (new_trace ws) 0.
 Proof. unfold all_len, new_trace. apply Forall_map. apply Forall_forall. reflexivity. Qed.
 
+(* the key set of a fresh trace: the listed names, each once, whatever the list repeats *)
+Lemma existsb_text_in x l : existsb (text_eqb x) l = true <-> In x l.
+Proof.
+  rewrite existsb_exists. split.
+  - intros [y [Hy He]]. apply text_eqb_eq in He. subst. exact Hy.
+  - intro H. exists x. split; [exact H|apply text_eqb_refl].
+Qed.
+
+Lemma dedup_from_spec : forall ws seen,
+  NoDup (dedup_from seen ws) /\
+  (forall w, In w (dedup_from seen ws) <-> In w ws /\ ~ In w seen).
+Proof.
+  induction ws as [|x r IH]; intro seen; cbn [dedup_from].
+  - split; [constructor|]. intro w. cbn. tauto.
+  - destruct (existsb (text_eqb x) seen) eqn:E.
+    + apply existsb_text_in in E. destruct (IH seen) as [Hnd Hin]. split; [exact Hnd|].
+      intro w. rewrite Hin. cbn [In]. split; [tauto|]. intros [[->|Hr] Hs]; [contradiction|tauto].
+    + assert (Hx : ~ In x seen) by (intro Hc; apply existsb_text_in in Hc; congruence).
+      destruct (IH (x :: seen)) as [Hnd Hin]. split.
+      * constructor; [|exact Hnd]. intro Hc. apply Hin in Hc. destruct Hc as [_ Hc]. apply Hc. left. reflexivity.
+      * intro w. cbn [In]. rewrite Hin. cbn [In]. split.
+        -- intros [->|[Hr Hs]]; [tauto|]. split; [tauto|]. intro Hc. apply Hs. right. exact Hc.
+        -- intros [[->|Hr] Hs]; [left; reflexivity|].
+           destruct (text_eqb x w) eqn:Exw; [apply text_eqb_eq in Exw; left; exact Exw|].
+           right. split; [exact Hr|]. intros [->|Hc]; [rewrite text_eqb_refl in Exw; discriminate|contradiction].
+Qed.
+
+Lemma new_trace_names ws :
+  NoDup (trace_names (new_trace ws)) /\ (forall w, In w (trace_names (new_trace ws)) <-> In w ws).
+Proof.
+  unfold trace_names, new_trace. rewrite map_map. cbn [fst]. rewrite map_id.
+  destruct (dedup_from_spec ws []) as [Hnd Hin]. split; [exact Hnd|].
+  intro w. rewrite Hin. cbn. tauto.
+Qed.
+
+Lemma lookup_some_in {A} (tr : list (name * A)) w l : lookup tr w = Some l -> exists k, In (k, l) tr.
+Proof.
+  induction tr as [|[k v] tr IH]; [discriminate|]. cbn [lookup].
+  destruct (text_eqb k w).
+  - intro H. inversion H; subst. exists k. left. reflexivity.
+  - intro H. destruct (IH H) as [k' Hk]. exists k'. right. exact Hk.
+Qed.
+
+Lemma all_len_lookup tr n w : all_len tr n -> In w (trace_names tr) ->
+  exists l, lookup tr w = Some l /\ length l = n.
+Proof.
+  intros Hall Hin. destruct (lookup_in tr w Hin) as [l Hl]. exists l. split; [exact Hl|].
+  destruct (lookup_some_in tr w l Hl) as [k Hk]. unfold all_len in Hall. rewrite Forall_forall in Hall.
+  exact (Hall (k, l) Hk).
+Qed.
+
 Lemma all_len_trace_len tr n : all_len tr n -> tr <> [] -> trace_len tr = Z.of_nat n.
 Proof.
   intros H Hne. destruct tr as [|[k l] tr]; [congruence|]. inversion H; subst. cbn in *. unfold len. lia.
@@ -281,6 +332,18 @@ Section SimProofs.
     split; [exact Hk|].
     pose proof (run_length _ _ _ _ _ O H (all_len_new ws)) as Hl.
     unfold cycles in Hl. cbn in Hl. rewrite Hk in Hl. rewrite Nat.add_0_r in Hl. exact Hl.
+  Qed.
+
+  (* whatever wires_to_track list the tracer was built from (repeats included): after n calls that
+     all returned, every listed wire has exactly n trace entries, found under its name *)
+  Lemma run_length_by_name : forall inss ws st v0 s' k w,
+    run (mkSim st v0 (new_trace ws)) inss = (s', k, Done) -> In w ws ->
+    exists l, lookup (str s') w = Some l /\ length l = length inss.
+  Proof.
+    intros inss ws st v0 s' k w H Hw.
+    destruct (run_length_all_done inss ws st v0 s' k H) as [_ Hall].
+    apply all_len_lookup; [exact Hall|].
+    rewrite (run_names _ _ _ _ _ H). cbn [str]. apply new_trace_names. exact Hw.
   Qed.
 
   (* ---------------------------------------------------------------- rtl_assert *)
@@ -649,6 +712,28 @@ Section StepMultipleTop.
   Proof.
     intros Hn Hrun. unfold Trace.step_multiple. rewrite Hn.
     erewrite sm_loop_stop; [reflexivity|]. rewrite seq_length. exact Hrun.
+  Qed.
+
+  (* without expected outputs nothing can be reported: step_multiple is just the steps, one per
+     cycle -- also when one of them raises (validation and simulation stay interleaved) *)
+  Lemma mismatches_no_expected provided s idx :
+    mismatches State stepf input_widths guard asserts provided [] s idx = [].
+  Proof.
+    unfold mismatches. induction (combine idx _) as [|p l IH]; [reflexivity|]. cbn [flat_map]. exact IH.
+  Qed.
+
+  Lemma step_multiple_no_expected provided nsteps s n s' k o :
+    sm_nsteps provided (@nil (name * list (option Z))) nsteps = inr n ->
+    run s (map (inputs_at provided) (seq 0 (Z.to_nat n))) = (s', k, o) ->
+    step_multiple provided [] nsteps false s =
+      match o with Done => SmFinished s' [] | _ => SmRaised s' k o end.
+  Proof.
+    intros Hn Hrun. destruct o.
+    - pose proof (run_all_done State stepf input_widths guard asserts _ _ _ _ _ Hrun eq_refl) as Hk.
+      rewrite map_length, seq_length in Hk. subst k.
+      rewrite (step_multiple_all provided [] nsteps s n s' Hn Hrun). rewrite mismatches_no_expected. reflexivity.
+    - apply (step_multiple_raises provided [] nsteps s n s' k Rejected Hn Hrun). discriminate.
+    - apply (step_multiple_raises provided [] nsteps s n s' k (AssertFailed a) Hn Hrun). discriminate.
   Qed.
 
   Lemma step_multiple_prologue_error provided (expected : list (name * list (option Z))) nsteps stop s e :
